@@ -1187,6 +1187,10 @@ class Client():
             self.connector.serviceConnect()
             if self.connector.connected:
                 if self.respondent:
+                    # new connection so nothing left of the old one belongs to it: not
+                    # the unparsed bytes of a message that was cut off nor its parser
+                    self.connector.clearRxbs()
+                    self.respondent.makeParser()
                     if self.respondent.evented and self.respondent.leid is not None:  # update Last-Event-ID header
                         # header value is the last event id encoded as UTF-8, kept as
                         # str so that packHeader's iso-8859-1 encode gives those bytes
